@@ -267,6 +267,20 @@ func (e *Env) ident(name string) TV {
 		if tv, ok := g.localByName(name, e.loop); ok {
 			return tv
 		}
+		// address-taken local (captured by a closure): read its cell
+		for _, b := range g.fn.Blocks {
+			for _, in := range b.Instrs {
+				if al, ok := in.(*ssa.Alloc); ok && al.Comment == name {
+					if _, defined := g.vals[al]; defined {
+						et := deref(al.Type())
+						if isAggregate(et) {
+							return TV{g.val(al), atRefSort, et}
+						}
+						return TV{g.load(e.cur, g.placeOfRef(g.val(al), et)), g.u.SortOf(et), et}
+					}
+				}
+			}
+		}
 		for _, fv := range g.fn.FreeVars {
 			if fv.Name() == name {
 				et := deref(fv.Type())
